@@ -225,8 +225,11 @@ func planSite(site int, mode string, k int, seed uint64) verifsim.Plan {
 	return verifsim.Plan{Seed: seed, Order: verifsim.OrderPlan{Mode: mode, K: k, Sites: []int{site}}}
 }
 
-// patternVariants returns semantically equal pattern lists: permutations, duplicates,
-// import-path ↔ relative form.
+// patternVariants returns pattern lists that differ only in what the property names: order
+// and overlap (duplicates). The spelling of a pattern (./x vs its import path) is NOT varied:
+// a pattern is a CLI option and goverter may echo it in a diagnostic (a thorough run showed
+// "could not load package ./c2" vs "... <module>/c2" — a false alarm of an earlier version
+// of this check, see DESIGN 13).
 func patternVariants(rng *rand.Rand, w *World, n int) [][]string {
 	var out [][]string
 	base := w.Patterns
@@ -237,16 +240,6 @@ func patternVariants(rng *rand.Rand, w *World, n int) [][]string {
 			d := p[rng.IntN(len(p))]
 			at := rng.IntN(len(p) + 1)
 			p = append(p[:at], append([]string{d}, p[at:]...)...)
-		}
-		for j := range p {
-			if rng.IntN(3) == 0 {
-				switch {
-				case strings.HasPrefix(p[j], "./") && !strings.Contains(p[j], "..."):
-					p[j] = w.Module + "/" + strings.TrimPrefix(p[j], "./")
-				case strings.HasPrefix(p[j], w.Module+"/") && !strings.Contains(p[j], "..."):
-					p[j] = "./" + strings.TrimPrefix(p[j], w.Module+"/")
-				}
-			}
 		}
 		out = append(out, p)
 	}
